@@ -5,6 +5,7 @@ import (
 	"bytes"
 	"encoding/json"
 	"fmt"
+	"strings"
 
 	"verif/harness/ref/refrpc"
 	"verif/harness/sim"
@@ -241,6 +242,8 @@ func replyIsOutcome(r refrpc.Response, in Invocation) bool {
 		return r.IsError && r.Code == -32096
 	case in.Ret == "bad":
 		return r.IsError
+	case strings.HasPrefix(in.Ret, "raw:"):
+		return !r.IsError && jsonEqual(string(r.Result), in.Ret[4:])
 	case in.Ret == "rawnull":
 		return !r.IsError && string(bytes.TrimSpace(r.Result)) == "null"
 	}
